@@ -37,7 +37,7 @@ from engines.common import Acc, HarnessError, pmap_acc, replay_generic, rp, spli
 from engines.refmodels import delta as refdelta
 
 SETUP = "props.C15:sb_setup"
-SETUP_ARG = ["B0", "B3", "B5", "BL", "BA"]
+SETUP_ARG = ["B0", "B1", "B3", "B5", "BL", "BA", "BK"]
 CALL = "props.C15:sb_call"
 FAST = {"wall_s": 90, "cpu_s": 5, "max_timeouts": 3}  # the CPU limit decides; the wall clock only catches sleeping hangs
 
@@ -622,17 +622,37 @@ S1, S2, S3, S4 = b"1" * 40, b"2" * 40, b"3" * 40, b"4" * 40
 T_KINDS = [(0o100644, S1), (0o100644, S2), (0o100755, S1), (0o40000, S3), (0o120000, S1), (0o160000, S4)]
 
 
+T_NAMES_ODD = [b"/a"]  # names no valid tree contains but parse_tree / Tree.add accept (joined to the path prefix)
+
+
 def tree_descs(max_entries):
+    """None, the empty tree, all trees of <= max_entries entries over T_NAMES x T_KINDS, and all trees of
+    <= max_entries - 1 entries that contain a name of T_NAMES_ODD."""
     out = [None, ()]
     for k in range(1, max_entries + 1):
         for names in itertools.combinations(T_NAMES, k):
             for kinds in itertools.product(T_KINDS, repeat=k):
                 out.append(tuple((n, m, s) for n, (m, s) in zip(names, kinds)))
+    for k in range(1, max_entries):
+        for names in itertools.combinations(T_NAMES_ODD + T_NAMES, k):
+            if not any(n in T_NAMES_ODD for n in names):
+                continue
+            for kinds in itertools.product(T_KINDS, repeat=k):
+                out.append(tuple((n, m, s) for n, (m, s) in zip(names, kinds)))
     return out
 
 
+def merge_feature(i):
+    path, d1, d2 = i
+    if path and any(n.startswith(b"/") for d in (d1, d2) if d for n, _, _ in d):
+        return "name-starts-with-slash"
+    if path.endswith(b"/") and (d1 or d2):
+        return "path-ends-with-slash"
+    return "regular"
+
+
 def fam_merge_entries(acc, inputs):
-    run_cmp(acc, "_merge_entries", inputs, lambda i: "regular",
+    run_cmp(acc, "_merge_entries", inputs, merge_feature,
             lambda i: "_merge_entries(%r, %r, %r)" % (i[0], i[1], i[2]), lambda i: _rp("_merge_entries", i))
 
 
@@ -648,26 +668,55 @@ def fam_is_tree(acc, inputs):
 CB_ALPHA = [b"a", b"\n", b"\0"]
 
 
+# every byte at which bytes.splitlines() ends a line; only LF ends a block
+CB_SEPS = [b"\n", b"\r", b"\x0b", b"\x0c", b"\x1c", b"\x1d", b"\x1e", b"\x85"]
+CB_ALPHA_SEP = [b"a"] + CB_SEPS + [b"\0"]
+
+
+def _chunkings(s):
+    yield ((s,),)
+    if len(s) > 1:
+        yield (tuple(s[i:i + 1] for i in range(len(s))),)
+        for cut in range(1, len(s)):
+            yield ((s[:cut], s[cut:]),)
+
+
 def count_blocks_inputs(thorough):
     n = 8 if thorough else 6
     for s in ds.strings(CB_ALPHA, n):
-        yield ((s,),)
-        if len(s) > 1:
-            yield (tuple(s[i:i + 1] for i in range(len(s))),)
-            for cut in range(1, len(s)):
-                yield ((s[:cut], s[cut:]),)
+        yield from _chunkings(s)
+    # line-separator-like bytes: all strings over {a, LF, CR, VT, FF, FS, GS, RS, NEL, NUL} x every chunking
+    # (so also a chunk boundary between CR and LF)
+    for s in ds.strings(CB_ALPHA_SEP, 5 if thorough else 4):
+        if any(c in b"\r\x0b\x0c\x1c\x1d\x1e\x85" for c in s):  # the others are in the space above
+            yield from _chunkings(s)
     for ln in (62, 63, 64, 65, 66, 127, 128, 129, 2**16 - 1, 2**16, 2**16 + 1):
         x = b"x" * ln
         for content in (x, x + b"\n", x + b"\n" + x, b"y" + x + b"\n" + b"z" * 64, x[: ln // 2] + b"\n" + x[ln // 2:]):
             yield ((content,),)
             yield ((content[:63], content[63:64], content[64:]),)
             yield ((content[:1], content[1:]),)
+    # the separators at and around the 64-byte block boundary, alone and as CR LF / CR CR LF
+    for ln in (61, 62, 63, 64, 65):
+        x = b"x" * ln
+        for sep in CB_SEPS[1:] + [b"\r\n", b"\r\r\n", b"\n\r"]:
+            for content in (x + sep, x + sep + b"y" * 70, x + sep + b"y" * 10 + sep + b"z"):
+                yield ((content,),)
+                yield ((content[:ln + 1], content[ln + 1:]),)  # chunk boundary inside / right after the separator
+                yield ((content[:64], content[64:]),)
     yield ((),)
     yield ((b"", b""),)
 
 
+def count_blocks_feature(i):
+    data = b"".join(i[0])
+    if any(c in b"\r\x0b\x0c\x1c\x1d\x1e\x85" for c in data):
+        return "line-separator-other-than-LF"
+    return "regular"
+
+
 def fam_count_blocks(acc, inputs):
-    run_cmp(acc, "_count_blocks", inputs, lambda i: "regular",
+    run_cmp(acc, "_count_blocks", inputs, count_blocks_feature,
             lambda i: "_count_blocks(chunks=%s)" % (repr([c[:12] for c in i[0]][:4]) + ("(%d bytes)" % sum(map(len, i[0])))),
             lambda i: _rp("_count_blocks", i))
 
@@ -682,6 +731,9 @@ R_BLOBS = [
     b"completely different content\n" * 6,
     b"x" * 65 + b"\n" + b"y" * 64 + b"\n" + b"z" * 63,
     b"",
+    # CR-only line ends (one "line" for the block counter): moved with one record prepended
+    b"".join(b"record %d of the log\r" % k for k in range(12)),
+    b"a new first record\r" + b"".join(b"record %d of the log\r" % k for k in range(12)),
 ]
 
 
@@ -832,6 +884,9 @@ def _work(acc, task):
     elif kind == "scopy":
         _, _, cmd, thorough, part, nparts = task
         fam_apply_delta(acc, [(b, d, 0) for _, b, d in ds.structured_copy([cmd], ds.copy_values(thorough))[part::nparts]])
+    elif kind == "swidth":
+        _, _, cmds = task
+        fam_apply_delta(acc, [(b, d, 0) for _, b, d in ds.structured_copy_widths(cmds)])
     elif kind == "merge":
         _, _, descs_a, max_entries, paths = task
         allb = tree_descs(max_entries)
@@ -877,7 +932,7 @@ def _build_tasks(ctx, release, q):
     # _merge_entries: all ordered pairs of trees
     me = 2 if q else 3
     descs = tree_descs(me)
-    paths = (b"", b"d") if q else (b"", b"d", b"d/e")
+    paths = (b"", b"d", b"d/")
     for part in split(ctx.order(descs), J * 4):
         tasks.append(("merge", release, part, me, paths))
     counts["_merge_entries"] = len(descs) ** 2 * len(paths)
@@ -896,6 +951,9 @@ def _build_tasks(ctx, release, q):
         for part in range(nparts):
             tasks.append(("scopy", release, cmd, not q, part, nparts))
     counts["apply_delta"] += 2 * 5 * (1 + nvals) ** 7
+    for lo in range(0x80, 0x100, 4):  # copy instructions at the width boundaries (offset + size up to and beyond 2^32)
+        tasks.append(("swidth", release, list(range(lo, lo + 4))))
+    counts["apply_delta"] += ds.copy_width_count()
     # repository level
     counts["repo_tree"] = chunked("repo_tree", repo_tree_inputs(3), J)
     counts["repo_parse"] = chunked("repo_parse", repo_parse_inputs(), J * 2)
